@@ -20,7 +20,8 @@ RULE = ("G-sim traces with template reuse: 1-2 operator templates (an operator w
         "nested operators) are instantiated 2-6 times with variations (identical, a launch dropped, a kernel renamed, wrapped in an "
         "operator of the same name, wrapped in another operator), operator names where one is a substring of another, 0-3 profiler "
         "steps (trimming), dropped launches/activities; x operator_name (full name or substring) x min_pattern_len 0..4 x top_k "
-        "1..5. Oracle: candidates = host events whose name contains the requested name, restricted to the minimum model depth, "
+        "1..5; with two ranks, half of the cases ask the same analysis for 1-2 (other or same) ranks on the same object first, every "
+        "answer validated. Oracle: candidates = host events whose name contains the requested name, restricted to the minimum model depth, "
         "with >= min_pattern_len device descendants; pattern = name + descendant device names by start time; count, sum of "
         "operator durations, sum of kernel durations per pattern; rows by non-increasing count. Instances with two equal-start "
         "kernels of different names only check the totals. Non-trivial: >= 2 patterns and one with count >= 2. Distinct = "
@@ -122,28 +123,43 @@ def check(case: Dict[str, Any]) -> CaseInfo:
     from hv.hta_io import load_analysis
 
     p = case["params"]
-    classes: List[str] = []
+    # the same analysis may have been asked for other ranks (or the same one) on this object before
+    queries = list(p.get("before", [])) + [p["rank"]]
+    results = []
     with scratch_dir() as d:
         files = write_case(case, d)
         ta = load_analysis(files, d, mp=False, prelude=case.get("prelude"))
         outdir = os.path.join(d, "out")
         os.makedirs(outdir)
-        df = hta_call("get_frequent_cuda_kernel_sequences", lambda: ta.get_frequent_cuda_kernel_sequences(
-            operator_name=p["op"], output_dir=outdir, min_pattern_len=p["min_len"], rank=p["rank"], top_k=p["top_k"], visualize=False))
-    rows_all = complete_rows(next(r["events"] for r in case["ranks"] if r["rank"] == p["rank"]))
+        for rank in queries:
+            results.append(hta_call("get_frequent_cuda_kernel_sequences", lambda: ta.get_frequent_cuda_kernel_sequences(
+                operator_name=p["op"], output_dir=outdir, min_pattern_len=p["min_len"], rank=rank, top_k=p["top_k"], visualize=False)))
+    info = None
+    for k, (rank, df) in enumerate(zip(queries, results)):
+        info = _validate(case, p, rank, df, f"call {k + 1} of {len(queries)} (ranks asked: {queries})")
+    if len(set(queries)) > 1:
+        info.classes.append("earlier_call_for_another_rank")
+        if queries[-1] == 0:
+            info.classes.append("rank_0_after_another_rank")
+    return info
+
+
+def _validate(case, p, rank, df, where) -> CaseInfo:
+    classes: List[str] = []
+    rows_all = complete_rows(next(r["events"] for r in case["ranks"] if r["rank"] == rank))
     want, ambiguous, n_inst = model_patterns(rows_all, p["op"], p["min_len"])
     if not want:
-        require(len(df) == 0, "patterns:none_expected", lambda: df.to_string())
+        require(len(df) == 0, "patterns:none_expected", lambda: where + "\n" + df.to_string())
         return CaseInfo(nontrivial=False, classes=["no_pattern"])
-    require(len(df) > 0, "patterns:missing", lambda: f"expected {want}")
+    require(len(df) > 0, "patterns:missing", lambda: f"{where}: expected {want}")
     got = {r["pattern"]: [int(r["count"]), int(r["GPU kernel duration (us)"]), int(r["CPU op duration (us)"])] for _, r in df.iterrows()}
     require(len(got) == len(df), "patterns:duplicate_rows", lambda: df.to_string())
     tot = lambda dct: [sum(v[i] for v in dct.values()) for i in range(3)]  # noqa: E731
-    require(tot(got) == tot(want), "patterns:totals", lambda: f"op {p['op']!r} min_len {p['min_len']}: got {got}, expected {want}")
+    require(tot(got) == tot(want), "patterns:totals", lambda: f"{where}: rank {rank} op {p['op']!r} min_len {p['min_len']}: got {got}, expected {want}")
     if ambiguous:
         classes.append("ambiguous_kernel_order")
     else:
-        require(got == want, "patterns:rows", lambda: f"op {p['op']!r} min_len {p['min_len']}: got {got}, expected {want}")
+        require(got == want, "patterns:rows", lambda: f"{where}: rank {rank} op {p['op']!r} min_len {p['min_len']}: got {got}, expected {want}")
     counts = [int(c) for c in df["count"]]
     require(all(a >= b for a, b in zip(counts, counts[1:])), "patterns:descending_count", lambda: str(counts))
     if len(want) >= 2:
@@ -163,7 +179,7 @@ def check(case: Dict[str, Any]) -> CaseInfo:
 def c16_case(draw):
     o = Opts(steps=[0, 1, 2, 3], w_sync=0, p_zero_op=0, allow_zero_call=False, second_thread=True, autograd=False, device_sync=False,
              annotations=True, w_launch=6, max_top=3, max_depth=2, streams=2, body_fn=template_body, kernel_names=KNAMES)
-    case = draw(sim_case(o, max_ranks=2, extras_trace_span=True))
+    case = draw(sim_case(o, max_ranks=2, extras_trace_span=True, nranks_choices=[2, 1]))
     rank = draw(st.sampled_from([r["rank"] for r in case["ranks"]]))
     names = sorted({r.name for r in complete_rows(next(x["events"] for x in case["ranks"] if x["rank"] == rank))
                     if r.cat == "cpu_op" and r.stream == -1})
@@ -171,6 +187,9 @@ def c16_case(draw):
     op = draw(st.sampled_from((tmpl * 3 or names) + ["aten::add", "my_module", "aten::", "aten::linear"]))
     case["params"] = {"rank": rank, "op": op, "min_len": draw(st.sampled_from([1, 2, 0, 1, 2, 3, 4])),
                       "top_k": draw(st.sampled_from([1, 2, 5]))}
+    all_ranks = [r["rank"] for r in case["ranks"]]
+    if len(all_ranks) > 1 and draw(st.sampled_from([True, True, False])):
+        case["params"]["before"] = [draw(st.sampled_from(all_ranks)) for _ in range(draw(st.sampled_from([1, 2])))]
     return case
 
 
@@ -183,5 +202,5 @@ def view(case):
 def campaigns(tier: str) -> List[Campaign]:
     return [Campaign("sequences", c16_case(), check, quick=480, thorough=11200, quick_shards=8,
                      required_classes={"several_patterns": 0.1, "repeated_pattern": 0.2, "substring_matches_several_names": 0.08,
-                                       "no_pattern": 0.02},
+                                       "no_pattern": 0.02, "rank_0_after_another_rank": 0.04},
                      sample_view=view)]
